@@ -26,6 +26,7 @@ type PropSpec struct {
 	Assumes    []string
 	Bounded    []string
 	Replays    map[string]string // obligation-name regexp -> replay template
+	DeadCovers map[string]bool
 }
 
 func loadProp(path string) (*PropSpec, error) {
@@ -62,6 +63,13 @@ func loadProp(path string) (*PropSpec, error) {
 			ps.Assumes = append(ps.Assumes, rest)
 		case "bounded":
 			ps.Bounded = append(ps.Bounded, rest)
+		case "deadcover":
+			// a contract point that is unreachable on the unchanged tree
+			// (dead code after inlining constants); not a vacuity alarm
+			if ps.DeadCovers == nil {
+				ps.DeadCovers = map[string]bool{}
+			}
+			ps.DeadCovers[strings.TrimSpace(rest)] = true
 		case "replay":
 			f := strings.Fields(rest)
 			if len(f) == 2 {
@@ -341,6 +349,9 @@ func cmdCheck(args []string) int {
 	// anything about that code, which is reported as a violation without a
 	// failing input.
 	for _, o := range vacuous {
+		if ps.DeadCovers[o.Name] {
+			continue
+		}
 		if strings.HasSuffix(o.Name, ":cover:requires") {
 			fmt.Fprintf(os.Stderr, "govc: VACUITY: %s: contradictory preconditions; nothing reported by this run can be believed\n", o.Name)
 			writeEvidence(*verif, ps, *tier, seed, nObl, nDis, nCover, funcsUnderContract, bySolver, samples, vcs, float64(solverMs)/1000, time.Since(start).Seconds(), violations, known, loadMs, genMs, solveWall, true)
